@@ -390,6 +390,19 @@ ADDENDA8 = {
     "C18": "; relabelled port of Sram-only modes; number conversion; documented bandwidths of the bundled configuration",
     "C19": "; shared quantisation records and numpy view rows (borrowed)",
 }
+ADDENDA12 = {
+    "C02": "; LUT placement step is the table's own storage size",
+    "C03": "; numeric locals inlined before the buffer parity is folded",
+    "C06": "; to_upscale interpreted per enum member; quantise() interpreted with a recording stub",
+    "C07": "; power-of-two boundary histograms for the executed create_palette; clipped block depth evaluated; no narrowing conversion at the weight entry points (expected count 0, matcher exercised)",
+    "C09": "; declared-type conjuncts of the reduced-scaling selector; division (not reciprocal) in the QUANTIZE folding",
+    "C16": "; constraint_tconv_valid folded on a grid against the kernel's output extent",
+    "C18": "; single group read of the configuration files; repeatable --config declaration",
+    "C19": "; zero point outside the rounding of 8-bit table entries (finding F138)",
+}
+for _pid, _t12 in ADDENDA12.items():
+    _tech, _text, _note, _ref = CLAIMS[_pid]
+    CLAIMS[_pid] = (_tech + _t12, _text, _note, _ref)
 ADDENDA11 = {
     "C02": "; is_standard_fm condition on every use of the operator-derived storage shape",
     "C03": "; cost / estimate table pairing in build_cascades; operand index agreement in create_feature_map calls; a PAD becomes a concatenation only with a single padded axis (finding F133)",
